@@ -28,6 +28,16 @@ SimRead ==
     \E b \in Bufs : \E n \in {Pick(ReadN(b))} :
       \/ Next(b, n) \/ Peek(b, n) \/ Skip(b, n) \/ ReadBinary(b, n) \/ ReadString(b, n)
       \/ ReadCopy(b, n) \/ Slice(b, n) \/ ReadByte(b) \/ Until(b) \/ GetBytes(b)
+\* donors for Append: a second read/write buffer that is filled (also across nodes), trimmed with MallocAck and appended unflushed
+Donors == {d \in Bufs : Writable(d) /\ ~bufs[d].ap /\ \E b \in Bufs : b < d /\ Writable(b)}
+SimDonor ==
+    IF Donors = {} THEN (IF FreeBufs # {} THEN (\E c \in {Pick(Caps)} : New(c)) ELSE SimFlush)
+    ELSE \E d \in {Pick(Donors)} : \E k \in {Pick(1 .. 7)} : \E n \in {Pick(WSizes)} :
+            CASE k <= 2 -> Malloc(d, n, -1)
+              [] k = 3 /\ MLen(d) > 0 -> (\E a \in {Pick({1, MLen(d) \div 2, MLen(d) - 1} \cap (0 .. MLen(d)))} : MallocAck(d, a))
+              [] k >= 4 /\ (\E b \in Bufs : b < d /\ Writable(b) /\ (bufs[b].pd = <<>> \/ bufs[d].rd = <<>>) /\ LiveOf(d) = {}) ->
+                    (\E b \in {Pick({b \in Bufs : b < d /\ Writable(b) /\ (bufs[b].pd = <<>> \/ bufs[d].rd = <<>>) /\ LiveOf(d) = {}})} : AppendBuf(b, d))
+              [] OTHER -> Malloc(d, n, -1)
 SimRelease == \E b \in Bufs : Release(b)
 \* chains of Slice readers (a Slice of a Slice, consumed and released in any order while the parent still holds data)
 Sls == {b \in Bufs : Alive(b) /\ bufs[b].kind = "sl"}
@@ -53,6 +63,7 @@ SimPeeky ==
           [] k = 5 /\ 1 \in ReadN(b) -> Skip(b, 1)
           [] k = 6 /\ Cardinality(ZcLive) < MaxLive /\ 1 \in ReadN(b) -> Next(b, 1)
           [] k = 7 /\ bufs[b].kind # "sl" /\ 1 \in ReadN(b) -> ReadCopy(b, 1)
+          [] k = 8 -> Release(b)      \* Peek, Release, Peek: the Peek cache must not survive the Release
           [] OTHER -> ReadByte(b)
 SimLife == (\E c \in {Pick(Caps)} : New(c)) \/ NewIn \/ (\E b \in Bufs : Close(b))
 
@@ -77,7 +88,8 @@ SimNext ==
          [] d <= 24            -> (IF AnyWI THEN SimWrite ELSE Else)
          [] d <= 31            -> (IF AnyWnoAp THEN SimAck ELSE Else)
          [] d <= 46            -> (IF AnyW THEN SimFlush ELSE Else)
-         [] d <= 51            -> (IF EnAppend THEN SimAppend ELSE Else)
+         [] d <= 49            -> (IF EnAppend THEN SimAppend ELSE Else)
+         [] d <= 51            -> (IF AnyW THEN SimDonor ELSE Else)
          [] d <= 75            -> (IF AnyA THEN SimRead ELSE Else)
          [] d <= 81            -> (IF EnNested THEN SimNested ELSE Else)
          [] d <= 88            -> (IF Fat # {} THEN SimPeeky ELSE Else)
